@@ -561,3 +561,137 @@ Fixpoint load_requests (fuel : nat) (qs : list queue) (m : reqmap) (ps : list sp
               | Panic => Panic
               end
   end.
+
+(** * One allocation attempt over the candidate nodes
+
+    common.allocateTask: the node-order plugins rank the nodes
+    (ssn.OrderedNodesByTask -- an oracle here: the candidates arrive as a list
+    in the order they are tried); for each candidate ssn.FittingNode runs the
+    predicates, the FIRST of which (predicates plugin, evaluateTaskOnPredicates)
+    is the node-level capacity gate IsTaskAllocationOnNodeOverCapacity(task,
+    job, node): what it adds to the queues' allocation is
+    node.GetRequiredInitQuota(task) ([node_task_request]), which for a
+    gpu-memory request is ceil(100 * gpuMemory / MemoryOfEveryGpuOnNode) / 100 of
+    THAT node.  A candidate that passes the gate can still be dropped by what
+    comes after it on the same node: PredicateByNodeResourcesType, the
+    gpu-memory-synced check, max pods, node conditions, the upstream filters
+    (node affinity / selector, taints, pod affinity, ports, volumes, DRA), and
+    finally the placement itself (allocateTaskToNode: no device to share, ...).
+    All of that is the oracle [cn_rest]; the theorems quantify over it.  The
+    task goes to the first candidate that passes both, and the allocate
+    handler charges [charge] of THAT node (NodeInfo.setAcceptedResources). *)
+Record cnode := {
+  cn_id : positive;      (* the node *)
+  cn_mem : positive;     (* MemoryOfEveryGpuOnNode *)
+  cn_rest : bool;        (* oracle: every later predicate and the placement succeed on this node *)
+}.
+
+(** [reuse = false] is the code: the gate is evaluated for every candidate.
+    [reuse = true] is NOT the code (the variant seeded/C08-4 introduces): the
+    verdict obtained for the first candidate evaluated is kept in [memo] and
+    reused for the other candidates of the same attempt.
+    Result: the verdicts in the order the candidates were visited, and the
+    candidate chosen. *)
+Fixpoint place_task_gen (reuse : bool) (fuel : nat) (qs : list queue) (jq : positive) (preemptible : bool)
+         (t : task) (memo : option verdict) (cs : list cnode) : result (list verdict * option cnode) :=
+  match cs with
+  | [] => Done ([], None)
+  | c :: r =>
+      let rv := match (if reuse then memo else None) with
+                | Some v => Done v
+                | None => is_task_allocation_on_node_over_capacity fuel qs jq preemptible t (cn_mem c)
+                end in
+      match rv with
+      | Done v =>
+          if match v with Schedulable => cn_rest c | _ => false end
+          then Done ([v], Some c)
+          else match place_task_gen reuse fuel qs jq preemptible t (Some v) r with
+               | Done (vs, o) => Done (v :: vs, o)
+               | OutOfFuel => OutOfFuel
+               | Panic => Panic
+               end
+      | OutOfFuel => OutOfFuel
+      | Panic => Panic
+      end
+  end.
+
+Definition place_task := place_task_gen false.
+
+(** a job whose tasks come with their candidate nodes instead of with the node they end up on *)
+Record ajob := { aj_queue : positive; aj_preempt : bool; aj_tasks : list (task * list cnode) }.
+
+Inductive aoutcome :=
+| APlaced (qs : list queue) (es : list entry) (where_ : list (task * cnode)) (trace : list (list verdict))
+    (* every task placed: the queues, the entries (most recent first), each task with the node chosen, and per
+       task the verdicts of the node-level gate on the candidates visited *)
+| ARefusedJob (v : verdict)          (* the job-level gate *)
+| ANoNode (tid : positive).          (* no candidate passed for this task: the statement is rolled back *)
+
+Fixpoint attempt_tasks (reuse : bool) (fuel : nat) (qs : list queue) (jq : positive) (preemptible : bool)
+         (ts : list (task * list cnode)) (acc : list entry) (chosen : list (task * cnode))
+         (trace : list (list verdict)) : result aoutcome :=
+  match ts with
+  | [] => Done (APlaced qs acc (rev chosen) (rev trace))
+  | (t, cs) :: rest =>
+      match place_task_gen reuse fuel qs jq preemptible t None cs with
+      | Done (vs, Some c) =>
+          match alloc_handler fuel qs jq preemptible (charge (cn_mem c) t) with
+          | Done qs1 =>
+              attempt_tasks reuse fuel qs1 jq preemptible rest
+                ({| e_task := t_id t; e_queue := jq; e_preempt := preemptible; e_charge := charge (cn_mem c) t |} :: acc)
+                ((t, c) :: chosen) (vs :: trace)
+          | OutOfFuel => OutOfFuel
+          | Panic => Panic
+          end
+      | Done (_, None) => Done (ANoNode (t_id t))
+      | OutOfFuel => OutOfFuel
+      | Panic => Panic
+      end
+  end.
+
+(** AllocateJob with the node search spelled out *)
+Definition attempt_job_gen (reuse : bool) (fuel : nat) (qs : list queue) (j : ajob) : result aoutcome :=
+  match is_job_over_queue_capacity fuel qs (aj_queue j) (aj_preempt j) (map fst (aj_tasks j)) with
+  | Done Schedulable => attempt_tasks reuse fuel qs (aj_queue j) (aj_preempt j) (aj_tasks j) [] [] []
+  | Done v => Done (ARefusedJob v)
+  | OutOfFuel => OutOfFuel
+  | Panic => Panic
+  end.
+
+Definition attempt_job := attempt_job_gen false.                      (* the code *)
+Definition attempt_job_first_verdict_reused := attempt_job_gen true.   (* NOT the code: seeded/C08-4 *)
+
+(** the job of [admit_job] that an attempt's choices amount to *)
+Definition resolved (j : ajob) (where_ : list (task * cnode)) : job :=
+  {| j_queue := aj_queue j; j_preempt := aj_preempt j;
+     j_tasks := map (fun tc => (fst tc, cn_mem (snd tc))) where_ |}.
+
+(** sequences of attempts and releases *)
+Inductive astep :=
+| AttemptJob (j : ajob)
+| AReleaseTask (tid : positive).
+
+Definition do_astep_gen (reuse : bool) (fuel : nat) (s : state) (x : astep) : result state :=
+  match x with
+  | AttemptJob j =>
+      match attempt_job_gen reuse fuel (s_queues s) j with
+      | Done (APlaced qs es _ _) => Done {| s_queues := qs; s_ledger := es ++ s_ledger s |}
+      | Done (ARefusedJob _) | Done (ANoNode _) => Done s
+      | OutOfFuel => OutOfFuel
+      | Panic => Panic
+      end
+  | AReleaseTask tid => do_step fuel s (Release tid)
+  end.
+
+Fixpoint arun_gen (reuse : bool) (fuel : nat) (s : state) (xs : list astep) : result state :=
+  match xs with
+  | [] => Done s
+  | x :: r => match do_astep_gen reuse fuel s x with
+              | Done s1 => arun_gen reuse fuel s1 r
+              | OutOfFuel => OutOfFuel
+              | Panic => Panic
+              end
+  end.
+
+Definition do_astep := do_astep_gen false.
+Definition arun := arun_gen false.
